@@ -1,5 +1,6 @@
 import BridgeVerif.Lemmas.Session
 import BridgeVerif.Lemmas.CheckMessage
+import BridgeVerif.Lemmas.SeatThread
 /-!
 # C09 — A session with four conforming clients always runs to completion
 
@@ -85,6 +86,18 @@ any text that equals the expected one up to letter case and up to the length of 
 in particular the expected text itself (the session model's clients send exactly it) -/
 theorem ready_messages_pass_the_server_check (e r : List Char) (h : ReadyVariant e r) : checkMessage e r = true :=
   checkMessage_variant h
+
+/-- **The seat thread as the code writes it.**  `seatReactive` (Model/SeatThread.lean) is `PlayerThread.run` / `_deal` /
+`_bidding_phase` / `_playing_phase` written the way the Python is: its control flow is decided only by the messages it
+takes from its own queue, with its own trick counter and its own seat-on-turn bookkeeping, and it forwards what it
+receives.  Fed the messages main queues for it and the messages its client sends in a session, it performs exactly the
+straight-line program the completion theorems above are about.  (`ScenarioPlayable`: a board that is played has 52 cards.) -/
+theorem seat_thread_follows_its_queue (sc : Scenario) (h : sc.boards ≠ []) (hw : ScenarioPlayable sc) (p : Seat) :
+    seatReactive p (teamsMsg sc.nsName sc.ewName)
+        (sendsOn (Chan.m2t p) (sessionProg sc .main))
+        (sendsOn (Chan.c2s p) (sessionProg sc (.client p)))
+      = some (sessionProg sc (.seat p)) :=
+  seatReactive_session sc h hw p
 
 example : checkMessage "North ready for East's bid".toList "NORTH   ready\tfor east's BID".toList = true := by decide
 
